@@ -346,7 +346,7 @@ Lemma ec_step_silent size dur o s recs :
   step_sound dur o (fst (estep size dur o s)) recs -> (length (times (cache s)) <= size)%nat ->
   mon_ec_step size dur o recs (backend s) (enc_eobs (fst (estep size dur o s))) = ([], step_recs dur o s ++ recs).
 Proof.
-  intros Hs Hb. destruct o as [ds d1 d2 fault|ds d1|ds d1|d|d]; cbn [estep step_recs step_sound mon_ec_step] in *.
+  intros Hs Hb. destruct o as [ds d1 d2 fault|ds d1|ds d1|d|d|d fault]; cbn [estep step_recs step_sound mon_ec_step] in *.
   - destruct (ec_remove_existing dur (now s + d1) (dedup_sort ds) (cache s)) as [mm c1] eqn:R. cbn [fst].
     pose proof (cached_bound _ _ _ _ _ _ R (dedup_sort_nodup ds)) as CB.
     destruct (negb (fault =? 0)) eqn:Ef; cbn [fst] in *; unfold enc_eobs; rewrite !sx_nth_L;
@@ -367,6 +367,11 @@ Proof.
   - cbn [fst]. unfold enc_eobs. rewrite !sx_nth_L. cbn [nth e_clock]. rewrite sx_Ns_of_Ns. reflexivity.
   - reflexivity.
   - reflexivity.
+  - cbn [fst]. unfold enc_eobs. rewrite !sx_nth_L. cbn [nth sx_Z e_code e_call of_option]. rewrite !sx_nth_L. cbn [nth].
+    rewrite sx_nats_of_nats, list_eqb_refl. cbn [andb app].
+    destruct (fault =? 0) eqn:Ef; cbn [negb].
+    + rewrite Z.eqb_refl. reflexivity.
+    + rewrite Ef. reflexivity.
 Qed.
 
 Lemma backend_estep size dur o s :
@@ -377,7 +382,7 @@ Lemma backend_estep size dur o s :
   | _ => backend s
   end.
 Proof.
-  destruct o as [ds d1 d2 fault|ds d1|ds d1|d|d]; cbn [estep]; try reflexivity.
+  destruct o as [ds d1 d2 fault|ds d1|ds d1|d|d|d fault]; cbn [estep]; try reflexivity.
   - destruct (ec_remove_existing _ _ _ _). destruct (negb _); reflexivity.
   - destruct (ec_remove_existing _ _ _ _). reflexivity.
 Qed.
@@ -460,6 +465,37 @@ Example seq_example :
   map (fun o => sx_Z (sx_nth o 0)) (sx_list (run17 inp)) = [0; 14; 0; 0; 5]
   /\ sx_nth (sx_nth (run17 inp) 3) 1 = L [A 4]
   /\ agree17 inp (run17 inp) = true /\ mon17 inp (run17 inp) = [].
+Proof. vm_compute. repeat split; reflexivity. Qed.
+
+(** Composite reads (GetFromComposite, op 3).  Read caching over the
+    deduplicating local replicator, fast {0}, slow {1, 2}: parent 0 from fast;
+    parent 1 read through (sink FindMissing, source Get, sink Put of the WHOLE
+    parent, child read back from the sink), then from fast; parent 2 with a
+    failing sink Put; with a failing fast backend; absent parent 4.  Read
+    fallback over the local replicator, primary {}, secondary {1}: the
+    primary's failure carries "Primary" (1), the secondary's "Secondary" (2),
+    so does the INTERNAL made of the sink's NOT_FOUND after the copy. *)
+Example seq_gfc_example :
+  (let inp := L [A 0; A 0; L [A 2; A 0]; L [A 0]; L [A 1; A 2];
+                 L [L [A 3; A 0; L []]; L [A 3; A 1; L []]; L [A 3; A 1; L []]; L [A 3; A 2; L [A 0; A 0; A 0; A 14]];
+                    L [A 3; A 2; L [A 13]]; L [A 3; A 4; L []]]] in
+   map (fun o => sx_Z (sx_nth o 0)) (sx_list (run17 inp)) = [0; 0; 0; 14; 13; 5]
+   /\ map (fun o => length (sx_list (sx_nth o 2))) (sx_list (run17 inp)) = [1; 5; 1; 4; 1; 4]%nat
+   /\ sx_nth (sx_nth (run17 inp) 1) 3 = L [A 0; A 1]
+   /\ agree17 inp (run17 inp) = true /\ mon17 inp (run17 inp) = [])
+  /\ (let inp := L [A 0; A 1; A 0; L []; L [A 1];
+                 L [L [A 3; A 1; L [A 14]]; L [A 3; A 1; L [A 0; A 14]]; L [A 3; A 1; L [A 0; A 0; A 0; A 5]];
+                    L [A 0; A 1; L [A 5; A 2]]; L [A 3; A 1; L []]]] in
+      map (fun o => (sx_Z (sx_nth o 0), sx_Z (sx_nth o 5))) (sx_list (run17 inp)) = [(14, 1); (14, 2); (13, 2); (2, 2); (0, 0)]
+      /\ agree17 inp (run17 inp) = true /\ mon17 inp (run17 inp) = [])
+  /\ (* existence cache, size 1, duration 5: object 0 recorded present, lost by the backend; a
+        FindMissing is still answered from the cache, a composite read is the backend's NOT_FOUND *)
+     (let inp := L [A 1; A 1; A 5;
+                L [L [A 3; A 0]; L [A 0; L [A 0]; A 0; A 0; A 0]; L [A 4; A 0]; L [A 0; L [A 0]; A 1; A 0; A 0];
+                   L [A 5; A 0; A 0]; L [A 3; A 0]; L [A 5; A 0; A 0]; L [A 5; A 0; A 14]]] in
+      map (fun o => (sx_Z (sx_nth o 0), sx_nth o 2)) (sx_list (run17 inp)) =
+        [(0, L []); (0, L [L [A 0]]); (0, L []); (0, L [L []]); (5, L [L [A 0]]); (0, L []); (0, L [L [A 0]]); (14, L [L [A 0]])]
+      /\ agree17 inp (run17 inp) = true /\ mon17 inp (run17 inp) = []).
 Proof. vm_compute. repeat split; reflexivity. Qed.
 
 Example ec_example :
